@@ -1,6 +1,7 @@
 """Scenario generator for engine A.  Everything is drawn from one Chooser(seed);
 the result is plain JSON and execution never looks at the generator again."""
 import copy
+import os
 
 from dtsim import render
 from dtsim.core import Chooser
@@ -32,9 +33,9 @@ class Layout(object):
             cls, meth = self.name.split(".")
             return render.render_method(desc, cls=cls, name=meth, siblings=self.siblings,
                                         inline_types=style.get("inline_types", True), kwonly=style.get("kwonly", False),
-                                        body=style.get("body"), extra_documented=style.get("stale", ()))
+                                        body=style.get("body"), extra_documented=style.get("stale", ()), style=style.get("docstyle", "rest"))
         return render.render_function(desc, self.name, inline_types=style.get("inline_types", True),
-                                      kwonly=style.get("kwonly", False), body=style.get("body"), extra_documented=style.get("stale", ()))
+                                      kwonly=style.get("kwonly", False), body=style.get("body"), extra_documented=style.get("stale", ()), style=style.get("docstyle", "rest"))
 
     def text(self, desc, style, state="present"):
         if state == "missing":
@@ -85,14 +86,21 @@ def gen_layout(ch, label, kind, name, desc, rich):
                   ]) if ch.chance(label + ".mdoc", 0.25) else None, siblings=siblings)
 
 
+DOCSTYLE_P = float(os.environ.get("DTSIM_DOCSTYLE_P", "0.15"))
+
+
 def gen_style(ch, label):
     body = None
     if ch.chance(label + ".body", 0.3):
         # statements that are not part of the interface, annotated local assignments among them
         body = ch.choice(label + ".bodyv", [["total = 0", "print('working')"], ["loss: float = 0.0", "seen: list = []", "print(loss, seen)"],
                                             ["count: int", "count = 1", "print(count)"]])
-    return {"inline_types": ch.chance(label + ".inline", 0.7), "kwonly": ch.chance(label + ".kwonly", 0.2),
-            "default_doc": ch.chance(label + ".ddoc", 0.3), "body": body}
+    st = {"inline_types": ch.chance(label + ".inline", 0.7), "kwonly": ch.chance(label + ".kwonly", 0.2),
+          "default_doc": ch.chance(label + ".ddoc", 0.3), "body": body}
+    if ch.chance(label + ".docstyle", DOCSTYLE_P):
+        # a function whose author writes google / numpydoc docstrings (sync itself always emits ReST)
+        st["docstyle"] = ch.choice(label + ".docstylev", ["google", "numpydoc"])
+    return st
 
 
 class Project(object):
